@@ -37,10 +37,11 @@ Definition k_WITH := Eval vm_compute in L "WITH".
 Definition q_left := Eval vm_compute in L "$left".
 Definition q_right := Eval vm_compute in L "$right".
 
-Definition rx (ts : list stok) : option (sexpr * list stok) := sx (sql_fuel ts) 0 ts.
+(** expressions are read with the fuel [fx] (any fuel above the expression's depth gives the same result) *)
+Definition rx (fx : nat) (ts : list stok) : option (sexpr * list stok) := sx fx 0 ts.
 
 (** select-list: `*` or `e [AS "alias"]`, comma separated, up to FROM *)
-Fixpoint read_cols (n : nat) (ts : list stok) : option (list rcol * list stok) :=
+Fixpoint read_cols (fx : nat) (n : nat) (ts : list stok) : option (list rcol * list stok) :=
   match n with
   | O => None
   | S n' =>
@@ -48,7 +49,7 @@ Fixpoint read_cols (n : nat) (ts : list stok) : option (list rcol * list stok) :
       match r with
       | t :: r' =>
         if is_p p_comma t then
-          match read_cols n' r' with Some (cs, r'') => Some (c :: cs, r'') | None => None end
+          match read_cols fx n' r' with Some (cs, r'') => Some (c :: cs, r'') | None => None end
         else Some ([c], r)
       | [] => Some ([c], [])
       end in
@@ -56,7 +57,7 @@ Fixpoint read_cols (n : nat) (ts : list stok) : option (list rcol * list stok) :
     | t :: r =>
       if is_p p_star t then after RStar r
       else
-        match rx ts with
+        match rx fx ts with
         | Some (e, a :: SQuoted al :: r') => if is_kw k_AS a then after (RExpr e (Some al)) r' else after (RExpr e None) (a :: SQuoted al :: r')
         | Some (e, r') => after (RExpr e None) r'
         | None => None
@@ -65,7 +66,7 @@ Fixpoint read_cols (n : nat) (ts : list stok) : option (list rcol * list stok) :
     end
   end.
 
-Definition read_from (ts : list stok) : option (rfrom * list stok) :=
+Definition read_from (fx : nat) (ts : list stok) : option (rfrom * list stok) :=
   (* the left side: "name" or (SELECT DISTINCT * FROM "name") *)
   let left :=
     match ts with
@@ -82,7 +83,7 @@ Definition read_from (ts : list stok) : option (rfrom * list stok) :=
       match r1 with
       | j :: SQuoted rn :: a2 :: SQuoted rr :: o :: r2 =>
         if is_kw k_JOIN j && is_kw k_AS a2 && str_eqb rr q_right && is_kw k_ON o then
-          match rx r2 with
+          match rx fx r2 with
           | Some (c, r3) => Some (RJoin uniq n outer rn c, r3)
           | None => None
           end
@@ -94,13 +95,13 @@ Definition read_from (ts : list stok) : option (rfrom * list stok) :=
   | _ => None
   end.
 
-Fixpoint read_exprs (n : nat) (ts : list stok) : option (list sexpr * list stok) :=
+Fixpoint read_exprs (fx : nat) (n : nat) (ts : list stok) : option (list sexpr * list stok) :=
   match n with
   | O => None
   | S n' =>
-    match rx ts with
+    match rx fx ts with
     | Some (e, t :: r) =>
-      if is_p p_comma t then match read_exprs n' r with Some (es, r') => Some (e :: es, r') | None => None end
+      if is_p p_comma t then match read_exprs fx n' r with Some (es, r') => Some (e :: es, r') | None => None end
       else Some ([e], t :: r)
     | Some (e, []) => Some ([e], [])
     | None => None
@@ -108,11 +109,11 @@ Fixpoint read_exprs (n : nat) (ts : list stok) : option (list sexpr * list stok)
   end.
 
 (** ORDER BY terms: e [ASC|DESC] [NULLS FIRST|LAST]; the dialect's defaults are ASC, NULLS LAST *)
-Fixpoint read_terms (n : nat) (ts : list stok) : option (list (sexpr * bool * bool) * list stok) :=
+Fixpoint read_terms (fx : nat) (n : nat) (ts : list stok) : option (list (sexpr * bool * bool) * list stok) :=
   match n with
   | O => None
   | S n' =>
-    match rx ts with
+    match rx fx ts with
     | Some (e, r) =>
       let '(asc, r1) := match r with t :: r' => if is_kw k_ASC t then (true, r') else if is_kw k_DESC t then (false, r') else (true, r) | [] => (true, r) end in
       let '(nf, r2) :=
@@ -125,7 +126,7 @@ Fixpoint read_terms (n : nat) (ts : list stok) : option (list (sexpr * bool * bo
       | Some nf =>
         match r2 with
         | t :: r' =>
-          if is_p p_comma t then match read_terms n' r' with Some (tl, r'') => Some ((e, asc, nf) :: tl, r'') | None => None end
+          if is_p p_comma t then match read_terms fx n' r' with Some (tl, r'') => Some ((e, asc, nf) :: tl, r'') | None => None end
           else Some ([(e, asc, nf)], r2)
         | [] => Some ([(e, asc, nf)], [])
         end
@@ -134,32 +135,32 @@ Fixpoint read_terms (n : nat) (ts : list stok) : option (list (sexpr * bool * bo
     end
   end.
 
-Definition read_select (ts : list stok) : option (rsel * list stok) :=
+Definition read_select (fx : nat) (ts : list stok) : option (rsel * list stok) :=
   match ts with
   | s :: r =>
     if is_kw k_SELECT s then
-      match read_cols (S (length r)) r with
+      match read_cols fx (S (length r)) r with
       | Some (cols, f :: r1) =>
         if is_kw k_FROM f then
-          match read_from r1 with
+          match read_from fx r1 with
           | Some (from, r2) =>
             let wh := match r2 with
-                      | t :: r' => if is_kw k_WHERE t then match rx r' with Some (e, r'') => Some (Some e, r'') | None => None end else Some (None, r2)
+                      | t :: r' => if is_kw k_WHERE t then match rx fx r' with Some (e, r'') => Some (Some e, r'') | None => None end else Some (None, r2)
                       | [] => Some (None, r2) end in
             match wh with
             | Some (w, r3) =>
               let gb := match r3 with
-                        | t :: b :: r' => if is_kw k_GROUP t && is_kw k_BY b then read_exprs (S (length r')) r' else Some ([], r3)
+                        | t :: b :: r' => if is_kw k_GROUP t && is_kw k_BY b then read_exprs fx (S (length r')) r' else Some ([], r3)
                         | _ => Some ([], r3) end in
               match gb with
               | Some (g, r4) =>
                 let ob := match r4 with
-                          | t :: b :: r' => if is_kw k_ORDER t && is_kw k_BY b then read_terms (S (length r')) r' else Some ([], r4)
+                          | t :: b :: r' => if is_kw k_ORDER t && is_kw k_BY b then read_terms fx (S (length r')) r' else Some ([], r4)
                           | _ => Some ([], r4) end in
                 match ob with
                 | Some (o, r5) =>
                   let lm := match r5 with
-                            | t :: r' => if is_kw k_LIMIT t then match rx r' with Some (e, r'') => Some (Some e, r'') | None => None end else Some (None, r5)
+                            | t :: r' => if is_kw k_LIMIT t then match rx fx r' with Some (e, r'') => Some (Some e, r'') | None => None end else Some (None, r5)
                             | [] => Some (None, r5) end in
                   match lm with
                   | Some (l, r6) => Some (mkSel cols from w g o l, r6)
@@ -181,19 +182,19 @@ Definition read_select (ts : list stok) : option (rsel * list stok) :=
   end.
 
 (** "name" AS ( select ) [, ...] *)
-Fixpoint read_ctes (n : nat) (ts : list stok) : option (list (str * rsel) * list stok) :=
+Fixpoint read_ctes (fx : nat) (n : nat) (ts : list stok) : option (list (str * rsel) * list stok) :=
   match n with
   | O => None
   | S n' =>
     match ts with
     | SQuoted name :: a :: lp :: r =>
       if is_kw k_AS a && is_p p_lp lp then
-        match read_select r with
+        match read_select fx r with
         | Some (s, rp :: r1) =>
           if is_p p_rp rp then
             match r1 with
             | c :: r2 =>
-              if is_p p_comma c then match read_ctes n' r2 with Some (tl, r3) => Some ((name, s) :: tl, r3) | None => None end
+              if is_p p_comma c then match read_ctes fx n' r2 with Some (tl, r3) => Some ((name, s) :: tl, r3) | None => None end
               else Some ([(name, s)], r1)
             | [] => Some ([(name, s)], [])
             end
@@ -206,15 +207,15 @@ Fixpoint read_ctes (n : nat) (ts : list stok) : option (list (str * rsel) * list
   end.
 
 (** one statement, ended by exactly one semicolon *)
-Definition read_stmt (ts : list stok) : option rstmt :=
+Definition read_stmt (fx : nat) (ts : list stok) : option rstmt :=
   let '(ctes, r) :=
     match ts with
-    | w :: r' => if is_kw k_WITH w then match read_ctes (S (length r')) r' with Some (c, r'') => (Some c, r'') | None => (None, r') end else (Some [], ts)
+    | w :: r' => if is_kw k_WITH w then match read_ctes fx (S (length r')) r' with Some (c, r'') => (Some c, r'') | None => (None, r') end else (Some [], ts)
     | [] => (Some [], ts)
     end in
   match ctes with
   | Some cs =>
-    match read_select r with
+    match read_select fx r with
     | Some (s, [semi]) => if is_p p_semi semi then Some (cs, s) else None
     | _ => None
     end
@@ -223,6 +224,6 @@ Definition read_stmt (ts : list stok) : option rstmt :=
 
 Definition read_sql (s : str) : option rstmt :=
   match sql_lex ClickHouse s with
-  | Some ts => read_stmt ts
+  | Some ts => read_stmt (sql_fuel ts) ts
   | None => None
   end.
